@@ -105,6 +105,48 @@ class Checker:
         z3 = self.z3
         if isinstance(a, QZ) or isinstance(b, QZ):
             return 'unknown'
+        # (i) numerals that agree to 1e-10 (relative) are the same constant, also INSIDE marker arguments, where no continuity
+        #     can be assumed: h/2*erf(c) computed exactly on one side and folded in double arithmetic by CasADi on the other
+        ea, eb = z3.simplify(emb(a)), z3.simplify(emb(b))
+
+        def numerals(e):
+            out, seen_, st = {}, set(), [e]
+            while st:
+                x = st.pop()
+                if x.get_id() in seen_:
+                    continue
+                seen_.add(x.get_id())
+                if z3.is_rational_value(x):
+                    if x.denominator_as_long() != 1:
+                        out[x.get_id()] = x
+                else:
+                    st.extend(x.children())
+            return list(out.values())
+        na, nb = numerals(ea), numerals(eb)
+        if (na or nb) and len(na) <= 400 and len(nb) <= 400:
+            fa = [(x.numerator_as_long() / x.denominator_as_long(), x) for x in na]
+            sub, suba = [], []
+            zero = z3.RealVal(0)
+            for x in na:
+                if abs(x.numerator_as_long() / x.denominator_as_long()) < 1e-12:
+                    suba.append((x, zero))       # residue of a floating-point cancellation (t = t0 + c - c): zero
+            for y in nb:
+                fy = y.numerator_as_long() / y.denominator_as_long()
+                if abs(fy) < 1e-12:
+                    sub.append((y, zero))
+                    continue
+                if not fa:
+                    continue
+                best = min(fa, key=lambda t_: abs(t_[0] - fy))
+                if not z3.eq(best[1], y) and abs(best[0] - fy) <= 1e-10 * max(abs(best[0]), abs(fy)):
+                    sub.append((y, best[1]))
+            if sub or suba:
+                eb2 = z3.simplify(z3.substitute(eb, *sub)) if sub else eb
+                ea2 = z3.simplify(z3.substitute(ea, *suba)) if suba else ea
+                dd = z3.simplify(ea2 - eb2)
+                if z3.is_rational_value(dd) and abs(dd.numerator_as_long() / dd.denominator_as_long()) <= 1e-11:
+                    self.stats['numeral_snap'] = self.stats.get('numeral_snap', 0) + 1
+                    return 'unsat'
         d = z3.simplify(emb(a) - emb(b))
         seen, vs, apps, stack = set(), [], [], [d]
         while stack:
